@@ -40,6 +40,13 @@ func VerifGenerateRandomizedSpec(client string, seed *PRNGSeed, weights *Weights
 	return generateRandomizedSpec(&id, serverName, nextProtos)
 }
 
+// VerifGenerateRandomizedSpecID calls generateRandomizedSpec on the CALLER's ClientHelloID object (the way
+// uconn.generateRandomizedSpec passes &uconn.ClientHelloID), so the harness can build twice from one id / one
+// *PRNGSeed and see whether a build changed its inputs.
+func VerifGenerateRandomizedSpecID(id *ClientHelloID, serverName string, nextProtos []string) (ClientHelloSpec, error) {
+	return generateRandomizedSpec(id, serverName, nextProtos)
+}
+
 // VerifSuiteRow is one row of the cipherSuites table as shuffledCiphers reads it.
 type VerifSuiteRow struct {
 	ID    uint16
